@@ -210,6 +210,8 @@ func gExec(cs *gCase) *gRun {
 	run := &gRun{Case: cs, Final: map[string][]byte{}}
 	p := cs.Prog
 	hub := newHub(false)
+	k := lib.NewCase(gClass(gChildProp, p.Server)) // hang account of this case (lib/budget.go)
+	hub.kase = k
 	root := cs.Root
 	if p.Server == "os" {
 		if root == "" {
@@ -274,7 +276,7 @@ func gExec(cs *gCase) *gRun {
 		if !finished {
 			hub.releaseAll()
 			srv.CloseInput()
-			srv.Wait(gDeadline)
+			hWaitSrv(srv, k, gDeadline)
 		}
 	}()
 	fault := func(key, what string, step int) *gRun {
@@ -283,7 +285,7 @@ func gExec(cs *gCase) *gRun {
 		run.Raw = srv.RawOut()
 		return run
 	}
-	if v, err := srv.Handshake(); err != nil || v.Typ != wire.Version {
+	if v, err := hHandshake(srv, k); err != nil || v.Typ != wire.Version {
 		return fault("harness/handshake", fmt.Sprint(err, v.Typ), -1)
 	}
 
@@ -304,7 +306,7 @@ func gExec(cs *gCase) *gRun {
 		case "dir":
 			f = wire.Req(wire.Opendir, sid, wire.B{}.Str(openName(h.Path)))
 		}
-		r, err := srv.Call(f)
+		r, err := hCall(srv, k, f)
 		if err != nil || r.Typ != wire.Handle || r.ID() != sid {
 			return fault("harness/setup-open", fmt.Sprintf("opening %s (%s): type %d err %v", h.Name, h.Kind, r.Typ, err), -1)
 		}
@@ -313,7 +315,7 @@ func gExec(cs *gCase) *gRun {
 		handles[h.Name] = hs
 		if h.Closed {
 			sid++
-			if r, err := srv.Call(wire.Req(wire.Close, sid, wire.B{}.Str(hs))); err != nil || r.Typ != wire.Status {
+			if r, err := hCall(srv, k, wire.Req(wire.Close, sid, wire.B{}.Str(hs))); err != nil || r.Typ != wire.Status {
 				return fault("harness/setup-close", fmt.Sprint(err), -1)
 			}
 		} else if p.Server == "os" {
@@ -392,6 +394,7 @@ func gExec(cs *gCase) *gRun {
 			run.Frames = fs
 			if err != nil {
 				gDeadlineHits.Add(1)
+				k.Spend(deadline)
 				return fmt.Errorf("reply %d of %d did not arrive: %v", len(run.Frames)+1, n, err)
 			}
 			return nil
@@ -400,6 +403,7 @@ func gExec(cs *gCase) *gRun {
 			f, err := srv.Recv(deadline)
 			if err != nil {
 				gDeadlineHits.Add(1)
+				k.Spend(deadline)
 				return fmt.Errorf("reply %d of %d did not arrive: %v", len(run.Frames)+1, n, err)
 			}
 			run.Frames = append(run.Frames, f)
@@ -410,10 +414,10 @@ func gExec(cs *gCase) *gRun {
 	switch cs.Mode {
 	case "serial":
 		for i := range frames {
-			if err := srv.Send(frames[i]); err != nil {
+			if err := hSend(srv, k, frames[i]); err != nil {
 				return fault("input/send-failed/"+p.Server, err.Error(), i)
 			}
-			if err := recvUpTo(i+1, gDeadlineNow()); err != nil {
+			if err := recvUpTo(i+1, gWait(k)); err != nil {
 				return fault("count/missing-response/"+p.Server, err.Error(), i)
 			}
 		}
@@ -471,13 +475,13 @@ func gExec(cs *gCase) *gRun {
 				}(), " "), strings.Join(keysOf(st), " "))
 				return fault("close/entered-during-hold/"+p.Server, "Close of the object was entered while reads/writes of earlier requests were held or had not yet been started: "+run.GraceViol, step)
 			}
-			if err := hub.waitBlockedUnless(keysOf(st), gDeadlineNow(), earlyClose); err != nil {
+			if err := hub.waitBlockedUnless(keysOf(st), gWait(k), earlyClose); err != nil {
 				if _, early := err.(earlyCloseErr); early {
 					return earlyFault(err, fmt.Sprintf("with %d gates opened, while the calls of the requests before its CLOSE were being started", step))
 				}
 				return fault("schedule/blocked-set-differs/"+p.Server, fmt.Sprintf("before opening gate number %d: %v", step, err), step)
 			}
-			if err := hub.wait(gDeadlineNow(), func() (bool, error) {
+			if err := hub.wait(gWait(k), func() (bool, error) {
 				for _, k := range closes {
 					cs := hub.byKey[k]
 					if len(cs) == 0 || cs[len(cs)-1].Fin == 0 {
@@ -501,7 +505,7 @@ func gExec(cs *gCase) *gRun {
 					return fault("schedule/blocked-set-differs/"+p.Server, "after the grace period: "+err.Error(), step)
 				}
 			}
-			if err := recvUpTo(len(sim.sent), gDeadlineNow()); err != nil {
+			if err := recvUpTo(len(sim.sent), gWait(k)); err != nil {
 				return fault("count/missing-response/"+p.Server, fmt.Sprintf("with %d gates opened the first %d replies are due: %v", step, len(sim.sent), err), step)
 			}
 			if step >= len(cs.Order) {
@@ -514,7 +518,7 @@ func gExec(cs *gCase) *gRun {
 			if i < 0 || i >= n || !sim.isStarted(i) {
 				return fault("harness/order-infeasible", fmt.Sprintf("request %d cannot return at step %d (running: %v)", i, step, st), step)
 			}
-			if err := hub.release(reqs[i].Gate, gDeadlineNow()); err != nil {
+			if err := hub.release(reqs[i].Gate, gWait(k)); err != nil {
 				return fault("schedule/held-call-did-not-return/"+p.Server, err.Error(), step)
 			}
 			sim.finish(i)
@@ -525,7 +529,7 @@ func gExec(cs *gCase) *gRun {
 			sim.finish(i)
 		}
 	}
-	if err := recvUpTo(n, gDeadlineNow()); err != nil {
+	if err := recvUpTo(n, gWait(k)); err != nil {
 		return fault("count/missing-response/"+p.Server, err.Error(), len(cs.Order))
 	}
 	if col != nil {
@@ -537,7 +541,8 @@ func gExec(cs *gCase) *gRun {
 		if err != nil {
 			return fault("input/send-failed/"+p.Server, err.Error(), -1)
 		}
-	case <-time.After(gDeadline):
+	case <-k.After(gDeadline):
+		k.Fired()
 		return fault("input/send-blocked/"+p.Server, "the server did not consume the request stream", -1)
 	}
 	run.Trace = sim.traceText()
@@ -586,7 +591,7 @@ func gExec(cs *gCase) *gRun {
 	toClose = append(toClose, run.Opened...)
 	for _, hs := range toClose {
 		sid++
-		r, err := srv.Call(wire.Req(wire.Close, sid, wire.B{}.Str(hs)))
+		r, err := hCall(srv, k, wire.Req(wire.Close, sid, wire.B{}.Str(hs)))
 		if err != nil {
 			return fault("count/missing-response/"+p.Server, "clean-up CLOSE not answered: "+err.Error(), -1)
 		}
@@ -595,7 +600,7 @@ func gExec(cs *gCase) *gRun {
 		}
 	}
 	srv.CloseInput()
-	serr, ok := srv.Wait(gDeadline)
+	serr, ok := hWaitSrv(srv, k, gDeadline)
 	finished = true
 	if !ok {
 		return fault("shutdown/serve-did-not-return/"+p.Server, "Serve still running 20 s after the end of the input", -1)
